@@ -93,7 +93,21 @@ class ThrRunner:
         self.logger.handlers = [self.handler]
         self.logger.propagate = False
         self.logger.setLevel(logging.DEBUG)
-        base = [linear_priority_function, constant_weight_prioritization][scn.get("prio", 0)]
+        if scn.get("prio", 0) == 2:
+            # arbitrary deterministic user function: a table key -> value (default 0), optionally
+            # mixed with the lateness so that values change between calls
+            table = {int(k): Fraction(v[0], v[1]) for k, v in (scn.get("ptable") or {}).items()}
+            mode = scn.get("pmode", "table")
+
+            def base(time_delta, job, max_exec, job_count):
+                v = table.get(self.key_of.get(id(job), -1), Fraction(0))
+                if mode == "neglate":
+                    return float(v) - time_delta / 1024.0
+                return float(v) if v.denominator != 1 else int(v)
+
+            base.__name__ = "user_priority"
+        else:
+            base = [linear_priority_function, constant_weight_prioritization][scn.get("prio", 0)]
         self.base_prio = base
 
         def prio(time_delta, job, max_exec, job_count):
@@ -282,18 +296,23 @@ class ThrRunner:
         return obs
 
     def float_exact(self, prio):
-        """do the float priorities order the jobs exactly like the exact rational ones?"""
+        """would binary floating point order these priorities exactly like the rationals do?
+        Decided from the harness's own float evaluation of the documented formula (never from the
+        values the implementation returned), so that a wrong implementation is not mistaken for
+        rounding."""
         kind = self.scn.get("prio", 0)
+        if kind == 2:
+            return True  # explicit values: Fraction(float) is exact
         ex = []
         for key, td, me, n, ret, late, w in prio:
             fw = Fraction(w)
             if late < 0:
-                e = Fraction(0)
+                e, f = Fraction(0), 0.0
             elif kind == 0:
-                e = (Fraction(late, 10**6) + 1) * fw
+                e, f = (Fraction(late, 10**6) + 1) * fw, (late / 10**6 + 1) * w
             else:
-                e = fw
-            ex.append((e, Fraction(ret)))
+                e, f = fw, float(w)
+            ex.append((e, Fraction(f)))
         for i in range(len(ex)):
             if (ex[i][0] > 0) != (ex[i][1] > 0):
                 return False
